@@ -34,6 +34,8 @@ CONSTANTS Configs,      \* set of task/client configurations (records, see MC_Cl
           MaxErrors,    \* at most this many failing requests per run
           PoissonIncs,  \* possible increments of the Poisson schedule (ticks)
           ExtAt,        \* request numbers during which the task may be completed externally (complete.set())
+          WaitExtAt, WaitOffsets,  \* ... also, for the requests in WaitExtAt, k ticks after the client began to wait for that request's scheduled time (k in WaitOffsets,
+                        \* strictly inside the wait): the completed-by signal of another task arrives while the client sleeps
           TimerBeforeRampUp,   \* TRUE = the code: loop-control timer started BEFORE the ramp-up sleep
           LatencyEndsAtResponse \* TRUE = the code: throttled latency = request_end - scheduled time
                                 \* (FALSE: processing_end; both switches exist only for the model self-test)
@@ -110,6 +112,7 @@ InitState(t0) ==
      first |-> TRUE, cw |-> 0,                               \* UnitAwareScheduler.first_request / current_weight (0 = None)
      del |-> "unthrottled", wait |-> 0, rnum |-> 0, rden |-> 1, \* delegate scheduler, its wait_time | rate (per tick)
      sched |-> 0,                                            \* next_scheduled of ScheduleHandle.__call__
+     cset |-> FALSE,                                         \* the worker's shared `complete` event
      nerr |-> 0, cur |-> NoReq, last |-> NoReq, n |-> 0]
 
 -----------------------------------------------------------------------------
@@ -144,9 +147,12 @@ YieldStep(c, s, inc) ==
 FinishStep(s) == [s EXCEPT !.pc = "done"]
 
 (* throughput_throttled = expected_scheduled_time > 0; sleep until total_start + expected_scheduled_time *)
-SleepStep(s) ==
-    LET due == s.ts + s.cur.sched
-    IN [s EXCEPT !.pc = "issue", !.now = IF s.cur.sched > 0 /\ due > s.now THEN due ELSE s.now]
+(* xo > 0: the complete event is set xo ticks after the wait began.  The code as it is does NOT look at the event while it   *)
+(* waits: the wait runs to its end, the request is issued at its scheduled time, is recorded with progress 100% and ends   *)
+(* the loop (RecordStep).                                                                                                   *)
+WaitLength(s) == LET due == s.ts + s.cur.sched IN IF s.cur.sched > 0 /\ due > s.now THEN due - s.now ELSE 0
+SleepStep(s, xo) ==
+    [s EXCEPT !.pc = "issue", !.now = s.now + WaitLength(s), !.cset = @ \/ xo > 0]
 
 (* absolute_processing_start = time.time(); processing_start = perf_counter(); the runner is called *)
 IssueStep(s) == [s EXCEPT !.pc = "wire", !.cur.issue = s.now]
@@ -156,8 +162,9 @@ WireEndStep(s, svc)  == [s EXCEPT !.pc = "returning", !.now = s.now + svc, !.cur
 
 (* execute_single returns: processing_end = perf_counter(); an error gives weight 0, unit "ops" *)
 ReturnStep(c, s, d2, ok, w, ext) ==
-    [s EXCEPT !.pc = "feedback", !.now = s.now + d2, !.cur.ret = s.now + d2, !.cur.ok = ok,
-              !.cur.w = IF ok THEN w ELSE 0, !.cur.unit = IF ok THEN c.runit ELSE "ops", !.cur.ext = ext,
+    \* ext: the complete event is set while the request is in flight; cur.ext: it is set when the runner returns
+    [s EXCEPT !.pc = "feedback", !.now = s.now + d2, !.cur.ret = s.now + d2, !.cur.ok = ok, !.cset = @ \/ ext,
+              !.cur.w = IF ok THEN w ELSE 0, !.cur.unit = IF ok THEN c.runit ELSE "ops", !.cur.ext = (s.cset \/ ext),
               !.nerr = IF ok THEN @ ELSE @ + 1]
 
 (* schedule_handle.after_request: UnitAwareScheduler (first request / weight change re-create the delegate) *)
@@ -177,7 +184,7 @@ RecordStep(c, s) ==
         svc == r.we - r.ws
         lend == IF LatencyEndsAtResponse THEN r.we ELSE r.ret
         lat == IF r.sched > 0 THEN lend - (s.ts + r.sched) ELSE svc   \* sched = 0: unthrottled, or first request of a throttled task
-        completed == r.ext \/ RunnerDone(c, r)                        \* complete.is_set() or runner.completed
+        completed == r.ext \/ RunnerDone(c, r)                        \* complete.is_set() or runner.completed (r.ext = s.cset)
         prog == IF completed THEN PD(c) ELSE r.p
         smp == [client |-> c.client, task |-> c.task, ty |-> r.ty, abs |-> r.issue, rs |-> r.ws, lat |-> lat, svc |-> svc,
                 proc |-> r.ret - r.issue, tp |-> r.we - s.ts, ops |-> r.w, unit |-> r.unit, p |-> prog,
@@ -202,7 +209,9 @@ Yield  == /\ st.pc = "next" /\ ~Completed(cfg, st)
           /\ \E inc \in (IF st.del = "poisson" THEN PoissonIncs ELSE {0}) :
                 /\ st' = YieldStep(cfg, st, inc)
                 /\ act' = [name |-> "Yield", poisson |-> st.del = "poisson", inc |-> inc]
-SleepUntil == st.pc = "sleep" /\ st' = SleepStep(st) /\ act' = [name |-> "SleepUntil"]
+SleepUntil == /\ st.pc = "sleep"
+              /\ \E xo \in {0} \cup (IF st.cur.n \in WaitExtAt THEN {k \in WaitOffsets : k < WaitLength(st)} ELSE {}) :
+                    st' = SleepStep(st, xo) /\ act' = [name |-> "SleepUntil", xo |-> xo]
 Issue  == st.pc = "issue" /\ st' = IssueStep(st) /\ act' = [name |-> "Issue"]
 WireStart == st.pc = "wire" /\ \E d \in D1s : st' = WireStartStep(st, d) /\ act' = [name |-> "WireStart", d |-> d]
 SvcChoices(c) == Svcs \cup (IF c.sched = "unthrottled" THEN {}
